@@ -641,4 +641,53 @@ pub mod verif_hooks
 	{
 		super::needs_outer_mutability(reference)
 	}
+
+	fn analyzer_with(declared: &[(u32, bool)]) -> Analyzer
+	{
+		let mut analyzer = Analyzer::default();
+		for (resolution_id, is_mutable) in declared
+		{
+			let identifier = Identifier {
+				name: format!("v{}", resolution_id),
+				location: Location {
+					source_filename: String::new(),
+					span: 0..0,
+					line_number: 1,
+					line_offset: 1,
+				},
+				resolution_id: *resolution_id,
+				is_authoritative: true,
+			};
+			analyzer.declare_variable(&identifier, *is_mutable);
+		}
+		analyzer
+	}
+
+	/// `use_variable` with the given variables declared (id, is_mutable).
+	pub fn use_variable(
+		declared: &[(u32, bool)],
+		identifier: &Poisonable<Identifier>,
+		is_mutated: bool,
+	) -> Result<(), Poison>
+	{
+		analyzer_with(declared).use_variable(identifier, is_mutated)
+	}
+
+	/// The pass on one statement with the given variables declared.
+	pub fn analyze_statement(
+		declared: &[(u32, bool)],
+		statement: Statement,
+	) -> Statement
+	{
+		statement.analyze(&mut analyzer_with(declared))
+	}
+
+	/// The pass on one expression with the given variables declared.
+	pub fn analyze_expression(
+		declared: &[(u32, bool)],
+		expression: Expression,
+	) -> Expression
+	{
+		expression.analyze(&mut analyzer_with(declared))
+	}
 }
